@@ -357,7 +357,7 @@ class AccessScript(object):
 def enc_opt(v):
     return -1 if v is None else v
 
-def watch_attrs(sched, obj, table):
+def watch_attrs(sched, obj, table, yield_after_writes=False):
     """table: {attribute name: (read code, write code, value encoder)}; swaps obj.__class__
     for a subclass whose attribute access on those names is a switch point + recorded event"""
     base = type(obj)
@@ -379,6 +379,13 @@ def watch_attrs(sched, obj, table):
                 sched.record(wr, enc(value))
             elif sched.active and sched.me() is not None:
                 sched.shared_writes.append((sched.me(), base.__name__, name))
+                if yield_after_writes:
+                    # every other field the document builder assigns: after the write, a switch point that is
+                    # not part of the recorded access sequence (another thread may look at the builder while it is
+                    # half way through)
+                    base.__setattr__(self, name, value)
+                    sched.point('acc')
+                    return
             base.__setattr__(self, name, value)
 
     Watched.__name__ = base.__name__
@@ -804,7 +811,7 @@ def make_world(sched, instrument=True, validator='lxml', monitor=True, pre=False
     w.wsdl11.build_interface_document = build
     # shared attributes of the double-checked lock
     watch_attrs(sched, wsgi, {'_wsdl': (RD_APP, WR_APP, encdoc)})
-    watch_attrs(sched, w.wsdl11, {'_Wsdl11__wsdl': (RD_B, WR_B, encdoc)})
+    watch_attrs(sched, w.wsdl11, {'_Wsdl11__wsdl': (RD_B, WR_B, encdoc)}, yield_after_writes=True)
     if monitor:
         shared = [app, in_prot, out_prot, app.interface, wsgi.doc, wsgi.doc.xml_schema]
         if 'j' in need:
